@@ -18,7 +18,7 @@ def run(res):
 
 
 def _run(res, work):
-    ok, tlog = common.regen_tables()
+    ok, tlog = common.regen_tables("C10")
     lean = common.lean_obligations("C10", res.tier)
     ok_h, hlog = common.cargo_build_harness(["c10"])
     rep = None
